@@ -1,6 +1,7 @@
 package main
 
 import (
+	"unsafe"
 	"fmt"
 	"strings"
 
@@ -354,6 +355,17 @@ func execSliceOps(x *execCtx) {
 					args[i], fulls[i] = withSpare(p)
 					befores[i] = append([]int{}, fulls[i]...)
 				}
+				// the argument list itself is an input too: a caller that spreads its own slice of slices (`f(groups...)`)
+				// must find every element where it was, with the same array, length and capacity
+				type hdr struct {
+					p        *int
+					len, cap int
+				}
+				hdrOf := func(x []int) hdr { return hdr{unsafe.SliceData(x), len(x), cap(x)} }
+				hdrs := make([]hdr, len(args))
+				for i := range args {
+					hdrs[i] = hdrOf(args[i])
+				}
 				var out []int
 				switch toks[0] {
 				case "union":
@@ -372,7 +384,7 @@ func execSliceOps(x *execCtx) {
 				}
 				pure := true
 				for i := range fulls {
-					pure = pure && eqInts(befores[i], fulls[i])
+					pure = pure && eqInts(befores[i], fulls[i]) && hdrOf(args[i]) == hdrs[i]
 				}
 				return fmt.Sprintf("out=%s pure=%d", encList(cp), b2i(pure))
 			}
